@@ -64,10 +64,7 @@ func c08Scratch() string {
 }
 
 func c08EvalFile(path string) ([]byte, error) {
-	p, err := bkl.New()
-	if err != nil {
-		return nil, err
-	}
+	p := newParser()
 	if err := p.MergeFileLayers(path); err != nil {
 		return nil, err
 	}
@@ -157,10 +154,7 @@ func c08Inject(base any) []any {
 }
 
 func c08EvalLayers(layers [][]any) ([]byte, error) {
-	p, err := bkl.New()
-	if err != nil {
-		return nil, err
-	}
+	p := newParser()
 	var prev []*bkl.Document
 	n := 0
 	for _, docs := range layers {
